@@ -329,6 +329,10 @@ def simp(t):
         a, b = t[1], t[2]
         if is_const(a) and is_const(b) and isinstance(a[1], str) and isinstance(b[1], str):
             return C(a[1] + b[1])
+        if is_const(b) and b[1] == "":
+            return a
+        if is_const(a) and a[1] == "":
+            return b
         return t
     if h == "boolval":
         # value of `a and b` / `a or b`: constants decide from the left
@@ -1294,6 +1298,24 @@ class SymX:
                             spec = "".join(str(x.value) for x in fs.values)
                         else:
                             spec = src(fs)
+                            if isinstance(fs, ast.JoinedStr):
+                                # a computed format spec `{x:<{WIDTH}}` whose pieces are all constants
+                                bits = []
+                                for x in fs.values:
+                                    if isinstance(x, ast.Constant):
+                                        bits.append(str(x.value))
+                                    elif isinstance(x, ast.FormattedValue) and x.format_spec is None and x.conversion == -1:
+                                        xv = ev(x.value)
+                                        if is_const(xv) and isinstance(xv[1], (int, str)) and not isinstance(xv[1], bool):
+                                            bits.append(str(xv[1]))
+                                        else:
+                                            bits = None
+                                            break
+                                    else:
+                                        bits = None
+                                        break
+                                if bits is not None:
+                                    spec = "".join(bits)
                     val = ev(v.value)
                     if is_const(val) and v.conversion == -1 and isinstance(val[1], (str, int)) and not isinstance(val[1], bool):
                         try:
